@@ -13,6 +13,12 @@ FIXED = [
      'dro comparisons with the affine operand first', 'dro: x <= maxof(y0, y1) accepted and compiled as x <= min(y0, y1); findings/F21_dro_piecewise_wrong_side.py'),
     ('F26', ['C10'], 'R11', 'lp.PiecewiseConvex.__le__', 'PiecewiseConvex.__le__',
      'piecewise expression scaled by zero', '0*maxof(x, y) <= -1 compiled as 0 <= 0 (sign 0 swallowed added terms); findings/F26_zero_scaled_piecewise.py'),
+    ('F04', ['C08', 'C01'], 'R14', 'lp.Model.do_math', 'pattern lb=3 ub=3',
+     'LP dual encodes a variable fixed by its bounds', 'LP dual of 1<=x0<=1 was infeasible (nan instead of -3); findings/F04_lp_dual_fixed.py'),
+    ('F05', ['C07', 'C09'], 'R15', 'lp.Model.do_math', 'vtype by concatenation',
+     'integrality vector is written per column block', 'solve -> st -> solve of an ro MILP gave len(vtype) < columns; findings/F05_vtype_misaligned.py'),
+    ('F27', ['C12'], 'R27', 'lp.DecVar.get', 'series order: edict',
+     'pairs per-scenario results with the right scenario labels', 'x.get() attached values to the wrong scenario labels after out-of-order adapt(); findings/F27_get_labels_out_of_order.py'),
 ]
 KNOWN = [
     ('F13', ['C04', 'C03'], 'R07', 'dro.Ambiguity.mix_support', 'exp_support.lmi ignored',
